@@ -129,6 +129,9 @@ func genWorlds(r *wire.Rng, n int) []genWorld {
 				if r.Chance(1, 10) {
 					p.node = ""
 				}
+				if r.Chance(1, 8) {
+					p.failed = true
+				}
 				add(p)
 			}
 			w.pods[id] = pods
@@ -143,6 +146,7 @@ func genWorlds(r *wire.Rng, n int) []genWorld {
 }
 
 type genCA struct {
+	noRoot     bool
 	kind       string
 	life       int64 // 0 with signer none
 	hasSigner  bool
@@ -164,12 +168,25 @@ func (c genCA) line() []string {
 	if len(ch) > 0 {
 		chain = strings.Join(ch, ",")
 	}
-	return []string{"ca", c.kind, signer, chain, "1", strconv.FormatInt(c.def, 10), strconv.FormatInt(c.max, 10)}
+	root := "1"
+	if c.noRoot {
+		root = "0"
+	}
+	return []string{"ca", c.kind, signer, chain, root, strconv.FormatInt(c.def, 10), strconv.FormatInt(c.max, 10)}
 }
 
 func genCAConfig(r *wire.Rng) genCA {
 	c := genCA{hasSigner: true}
-	switch r.Intn(16) {
+	switch r.Intn(19) {
+	case 16:
+		c.kind, c.noRoot = "noroot", true
+		c.life = wire.Pick(r, []int64{7200, 30 * 86400})
+		c.chain = []int64{c.life}
+	case 17, 18:
+		// chain head expires before the signer: minTTL's cap on the default TTL is what bounds a defaulted lifetime
+		c.kind = "capchain"
+		c.life = 30 * 86400
+		c.chain = []int64{wire.Pick(r, []int64{7200, 14400}), c.life}
 	case 0, 1, 2, 3:
 		c.kind, c.life = "self", farLife
 	case 4, 5, 6, 7, 8:
@@ -216,11 +233,29 @@ func ttlDeterministic(v int64, c genCA) bool {
 		return false
 	}
 	s := ns / int64(time.Second)
-	return !(c.hasSigner && c.life > 0 && s > c.life-120 && s < c.life)
+	return !nearBoundary(s, c)
+}
+
+// nearBoundary: a lifetime within two minutes of the signer's (or the chain head's) remaining life.
+func nearBoundary(s int64, c genCA) bool {
+	if c.hasSigner && c.life > 0 && s > c.life-120 && s < c.life {
+		return true
+	}
+	if c.kind == "capchain" && s > c.chain[0]-120 && s < c.chain[0]+120 {
+		return true
+	}
+	return false
 }
 
 func defaultDeterministic(c genCA) bool {
-	return !(c.hasSigner && c.life > 0 && c.def > c.life-120 && c.def < c.life)
+	d := c.def
+	if d > c.max {
+		d = c.max // sign() caps a defaulted lifetime at the maximum
+	}
+	if c.kind == "capchain" && c.def >= c.chain[0] {
+		return true // capped by minTTL: observed as `chaincap`
+	}
+	return !nearBoundary(d, c)
 }
 
 func genTTL(r *wire.Rng, c genCA) int64 {
@@ -459,6 +494,99 @@ func genCluster(r *wire.Rng, w genWorld) string {
 	return wire.EncList([]string{"c1"})
 }
 
+func kubeSpecTokens(td, primary string, aliases []string, remotes, cluster, form, token string, tokenAud []string, rev reviewSpec) []string {
+	return []string{"kube", "grpc", wire.Enc(td), wire.Enc(primary), wire.EncList(aliases), remotes, cluster, form, wire.Enc(token), wire.EncList(tokenAud), rev.tok()}
+}
+
+// genReqA: a request authenticated by one REAL authenticator (kind 0 oidc, 1 kube, 2 xfcc, 3 cert).
+func genReqA(r *wire.Rng, w genWorld, cfg genCA) reqaSpec {
+	kind := r.Intn(4)
+	if r.Chance(1, 3) {
+		kind = 1
+	}
+	q := reqaSpec{spec: genAuthSpec(r, kind, "grpc", true),
+		req: reqSpec{xdsAuth: true, hasPeer: true, tls: true, csr: genCSR(r), ttl: genTTL(r, cfg), imp: "-", signer: "-", cluster: genCluster(r, w)}}
+	if r.Chance(3, 4) {
+		// mostly credentials that should authenticate
+		for i := 0; i < 6; i++ {
+			if kind == 1 {
+				q.spec[6] = q.req.cluster
+			}
+			if _, ok := expectedFromCredential(q.spec, q.req.cluster); ok {
+				break
+			}
+			q.spec = genAuthSpec(r, kind, "grpc", true)
+		}
+	}
+	if r.Chance(1, 5) {
+		q.req.junk = 1
+	}
+	if kind == 1 && len(w.ids) > 0 && r.Chance(2, 3) {
+		// the ambient flow: a node proxy authenticates with its Kubernetes token and asks for the
+		// identity of a workload on its node
+		id := wire.Pick(r, w.ids)
+		pods := w.pods[id]
+		if len(pods) > 0 {
+			zt := wire.Pick(r, pods)
+			var proxies []podSpec
+			for _, p := range pods {
+				for _, t := range w.trusted {
+					if t == p.ns+"/"+p.sa {
+						proxies = append(proxies, p)
+					}
+				}
+			}
+			if len(proxies) > 0 && r.Chance(5, 6) {
+				zt = wire.Pick(r, proxies)
+			}
+			tgt := wire.Pick(r, pods)
+			if r.Chance(2, 3) {
+				var same []podSpec
+				for _, p := range pods {
+					if p.node == zt.node && p.sa != "" {
+						same = append(same, p)
+					}
+				}
+				if len(same) > 0 {
+					tgt = wire.Pick(r, same)
+				}
+			}
+			rev := reviewSpec{authenticated: true, groups: []string{"system:serviceaccounts", "system:authenticated"},
+				username: "system:serviceaccount:" + zt.ns + ":" + zt.sa, podName: "=" + wire.EncList([]string{zt.name}), podUID: "=" + wire.EncList([]string{zt.uid})}
+			switch r.Intn(12) {
+			case 0:
+				rev.podUID = "=" + wire.EncList([]string{"stale"})
+			case 1:
+				rev.podName = "-"
+			case 2:
+				rev.authenticated = false
+			}
+			td := wire.Pick(r, genTDs)
+			q.req.cluster = wire.EncList([]string{id})
+			if r.Chance(1, 8) {
+				q.req.cluster = genCluster(r, w)
+			}
+			remotes := "nil"
+			primary := id
+			if r.Chance(1, 3) {
+				primary, remotes = "Kubernetes", wire.EncList(w.ids)
+			}
+			q.spec = kubeSpecTokens(td, primary, nil, remotes, q.req.cluster, "bearer", "node-proxy-token", []string{"istio-ca"}, rev)
+			impTD := td
+			if r.Chance(1, 6) {
+				impTD = wire.Pick(r, genTDs)
+			}
+			q.req.imp = "s:" + wire.Enc("spiffe://"+impTD+"/ns/"+tgt.ns+"/sa/"+tgt.sa)
+			if r.Chance(1, 8) {
+				q.req.imp = genImpersonation(r, w)
+			}
+		}
+	} else if kind == 1 {
+		q.spec[6] = q.req.cluster
+	}
+	return q
+}
+
 func genIssue(seed uint64, n int, outp string) {
 	out := wire.Create(outp)
 	defer out.Close()
@@ -480,6 +608,10 @@ func genIssue(seed uint64, n int, outp string) {
 		out.Line(w.line...)
 		nreq := 1 + r.Intn(4)
 		for i := 0; i < nreq; i++ {
+			if r.Chance(1, 4) {
+				out.Line(genReqA(r, w, cfg).line()...)
+				continue
+			}
 			q := reqSpec{xdsAuth: true, hasPeer: true, tls: true, imp: "-", signer: "-", cluster: "-"}
 			switch r.Intn(40) {
 			case 0:
